@@ -312,7 +312,7 @@ var p2ReadOnly = map[string][]string{
 	"tensor.(*Dense).Slice": {"t"}, "tensor.(*Dense).At": {"t"}, "tensor.(*Dense).Clone": {"t"}, "tensor.(*Dense).Materialize": {"t"}, "tensor.(*Dense).SafeT": {"t"},
 	"tensor.T": {"t"}, "tensor.Transpose": {"t"}, "tensor.Copy": {"src"}, "tensor.ToMat64": {"t"},
 	"tensor.(*Dense).WriteNpy": {"t"}, "tensor.(*Dense).WriteCSV": {"t"}, "tensor.(*Dense).GobEncode": {"t"}, "tensor.(*Dense).PBEncode": {"t"}, "tensor.(*Dense).FBEncode": {"t"},
-	"tensor.(*Dense).Eq": {"t", "other"}, "tensor.(*Dense).Format": {"t"},
+	"tensor.(*Dense).Eq": {"t", "other"}, "tensor.(*Dense).Format": {"t"}, "tensor.(*Dense).Norm": {"t"},
 }
 
 func P2(rc *RC, only func(key string) bool, floor int) {
